@@ -125,6 +125,25 @@ def main(chk):
           chk.violation(key, f'Bidirectional outputs for length {n}: forward {fwd} backward {bwd}, documented re-indexing {want_f} / {want_b}', {})
           break
 
+    # call-time return_carry on a Bidirectional built with the default: both carries stop at the valid length
+    for tm in (False, True):
+      key = f'C13:bidirectional:return_carry-at-call:T={T}:time_major={tm}'
+      try:
+        inp = x.transpose(1, 0, 2) if tm else x
+        (cf, cb), _ = nn.Bidirectional(nn.RNN(TracerCell()), nn.RNN(TracerCell()), time_major=tm).apply(
+            {}, jnp.asarray(inp), seq_lengths=jnp.asarray(ns), return_carry=True)
+      except Exception as e:
+        chk.violation(key, f'raised {type(e).__name__}: {str(e)[:160]}', {})
+        continue
+      chk.count(key)
+      for bi, n in enumerate(ns):
+        got = (int(round(float(np.asarray(cf)[bi, 0]))), int(round(float(np.asarray(cb)[bi, 0]))))
+        want = (int(''.join(str(t + 1) for t in range(n))), int(''.join(str(t + 1) for t in range(n - 1, -1, -1))))
+        if got != want:
+          chk.violation(key, f'Bidirectional(..)(x, seq_lengths, return_carry=True): carries {got} for valid length {n}, specification {want} '
+                             '(digits = consumed time indices + 1; 9 = padding)', {})
+          break
+
   # real cells: padding is inert (bit-identical), stepwise loop = RNN, Linen LSTM = NNX LSTM
   rs = np.random.RandomState(chk.seed)
   T, B, D, H = 4, 3, 3, 4
@@ -253,6 +272,17 @@ def main(chk):
         outs = [np.asarray(nm(jnp.asarray(xq[:, t:t + 1]))) for t in range(T)]
         if not np.allclose(np.concatenate(outs, 1), y1, rtol=1e-5, atol=1e-5):
           chk.violation(key + ':nnx-decode', 'nnx stepwise decoding differs from whole-sequence causal attention', case)
+        # the cache machine with a re-initialisation (SeqIndex Reinit): a few steps, init_cache again, then the whole sequence
+        for pre in sorted({1, min(2, T), T}):
+          nm.init_cache((1, T, 6))
+          for t in range(pre):
+            nm(jnp.asarray(xq[:, t:t + 1]))
+          nm.init_cache((1, T, 6))
+          outs = [np.asarray(nm(jnp.asarray(xq[:, t:t + 1]))) for t in range(T)]
+          if not np.allclose(np.concatenate(outs, 1), y1, rtol=1e-5, atol=1e-5):
+            chk.violation(key + ':nnx-decode-reinit', f'nnx decoding after {pre} step(s) and a second init_cache differs from whole-sequence causal attention '
+                                                      '(the re-initialised cache did not restart)', case)
+            break
       except Exception as e:
         chk.violation(key + ':nnx', f'raised {type(e).__name__}: {str(e)[:160]}', case)
   chk.sample({'spec': 'SeqIndex', 'attn_case': ra['exports'][3]})
